@@ -9,6 +9,12 @@ FRAGS = [2, 3, 7, 50, 100, 199, 200, 500, 1200, 4093, 4094, 4095, 8000, 65535]
 
 
 def gen_session_cfg(rng, idx):
+    cfg = _gen_session_cfg(rng, idx)
+    cfg["sendfaults"] = idx % 4 == 2         # a quarter of the sessions see occasional sendto() failures on the server
+    return cfg
+
+
+def _gen_session_cfg(rng, idx):
     n = rng.choice([1, 1, 2, 3])
     clients = []
     for i in range(n):
@@ -103,6 +109,8 @@ def run_session(tag, cfg, seed, ops_filter=None, redeliver=True, setup_only=Fals
         s.ok = True
         return s
     ops = ["ping"] * 6 + ["up"] * 3 + ["down"] * 5 + ["burst", "idle", "id0", "aux", "hs", "badip", "downsoon", "upsmall", "rawop", "refrag", "refrag", "dupsoon", "dupsoon", "c2c", "c2c"]
+    if cfg.get("sendfaults"):
+        ops += ["sendfault"] * 3
     if redeliver:
         ops += ["dup"] * 3
     if ops_filter:
@@ -228,6 +236,13 @@ def do_op(s, mc, op, rng):
             mc.ask(proto.msg_version(mc.domain, mc.new_cmc(), rng.choice([0x00000501, 0x00000502 ^ 0x100])), timeout_us=300000)
         else:
             mc.ask(proto.msg_setfrag(mc.domain, mc.userid, rng.choice([0, 1]), mc.new_cmc()), timeout_us=300000)
+    elif op == "sendfault":
+        # one of the server's next few sendto() calls on its DNS socket fails (ENOBUFS, EPERM from a firewall rule, EAGAIN):
+        # nothing leaves, and whatever bookkeeping preceded the call must not produce surplus or wrong answers later
+        k.send_faults[:] = [f for f in k.send_faults if f["count"] > 0]
+        if len(k.send_faults) < 2:
+            k.send_faults.append({"proc": "srv", "dst_port": None, "errno": rng.choice([105, 1, 11]), "count": 1,
+                                  "skip": rng.choice([0, 0, 1, 1, 2, 3])})
     elif op == "dupsoon":
         # an impatient relay repeats the held ping while it sits in the server's 20 ms send-real-soon slot:
         # ping (held), then the last fragment of an upstream packet with nothing to send downstream, then the ping
